@@ -22,6 +22,25 @@ NOTES={
  "C17a":("C17",["C17","C18"],""),
  "C18a":("C18",["C18","C17"],"same change as C17a, found independently"),
  "C19a":("C19",["C19"],""),
+ "C01b":("C01",["C01","C08"],"same change as C08a, found independently"),
+ "C02b":("C02",["C02"],""),
+ "C03b":("C03",["C03","C05","C04"],"same change as C05b, found independently"),
+ "C04b":("C04",["C04","C10","C01"],"C10 detected it but reported CHECK-BROKEN (exit 2): the mutated Clear() alters the named set for good, so the second evaluation of the same case gave a different class; the parent-immutability verdict is now stated against the standard's table instead of a before-image (stateless)"),
+ "C05b":("C05",["C05","C04","C03"],""),
+ "C06b":("C06",["C06","C13"],"missed by the first version of C06 (the base value was always freshly parsed); C06 now also resolves against a base value that has been used read-only before (parameter list inspected, earlier resolutions) and demands the same result. C13 caught it unchanged"),
+ "C07b":("C07",["C07"],""),
+ "C08b":("C08",["C08","C01"],""),
+ "C10b":("C10",["C10"],""),
+ "C11b":("C11",["C11"],"missed by the first version of C11 (query alphabet could not spell %3D); the alphabet now contains the escaped delimiters as tokens (%26 %3D %3d %2B %25 %20)"),
+ "C12b":("C12",["C12"],""),
+ "C13b":("C13",["C13"],""),
+ "C14b":("C14",["C14"],""),
+ "C15b":("C15",["C15"],""),
+ "C16b":("C16",["C16"],"missed by the first version of C16 (no input with a password but no username); ':pw@' added to the userinfo slot menu of the shared product grammar and to the option-clause inputs and start URLs"),
+ "C17b":("C17",["C17"],""),
+ "C18b":("C18",["C18","C17"],""),
+ "C19b":("C19",["C19"],""),
+ "C20b":("C20",["C20"],""),
  "C20a":("C20",["C20"],"missed by the first version of C20 (only single-fragment repetition families); two-phase families P*n + Q*n over per-slot atom menus were added"),
 }
 for d in sorted(glob.glob('/verif/seeded/*/')):
